@@ -90,6 +90,10 @@ def cases(tier, seed):
         # UFO libraries and storage
         c = layout_gen.propagate_font(rng)
         sources.append(("ufo", {"kind": "ufo", "ufo": c["ufo"]}, f"gen-propagate-{k}"))
+    for k in range(3 if tier == "quick" else 12):
+        # the DottedCircle filter averages anchor positions over all bases: compared across glyph iteration orders
+        c = layout_gen.dotted_circle_font(rng)
+        sources.append(("ufo", {"kind": "ufo", "ufo": c["ufo"]}, f"gen-propagate-dc{k}"))
     for k in range(1 if tier == "quick" else 8):
         sources.append(("ds", {"kind": "family", "family": gen.rich_family(rng, n_masters=rng.choice([2, 3]))}, f"gen-fam-{k}"))
     for k in range(1 if tier == "quick" else 6):
